@@ -582,7 +582,9 @@ def gen_c08(seed, tier):
                 if c == "all":
                     rs[nm] = None
                 elif c == "some":
-                    keep = r.sample(vals, r.randrange(0, len(vals) + 1))
+                    # (at most one value kept: the library returns the kept values through list(set(...)), whose order
+                    # depends on the interpreter's string hashing - with one value the wire bytes stay reproducible)
+                    keep = r.sample(vals, r.randrange(0, min(len(vals), 1) + 1))
                     rs[nm] = [".*" + _re.escape(v_[:18]) for v_ in keep if len(v_) >= 8] or ["^never-matches$"]
             if rs:
                 p["attr_restrictions"] = rs
